@@ -51,9 +51,16 @@
                      (TM_HAS3(m) ==> *(TM_N3(m)->entry.le_prev) == TM_N3(m)) && (TM_HAS4(m) ==> *(TM_N4(m)->entry.le_prev) == TM_N4(m)))
 /* list element k (1-based, constant) is the element the snapshot has at index i (0-based): same object, same id, same expiry */
 #define TM_IS_OLD(N, i) ((const void *)(N) == xv_gt.node[i] && (N)->id == xv_gt.id[i] && (N)->expiry_time == xv_gt.exp[i])
+#ifndef XV_REL_MAX
+#define XV_REL_MAX 1e15      /* relative timeouts explored by the main jobs (seconds); job timer_mgr_schedule@huge lifts the bound */
+#endif
+#ifndef XV_ID_MAX
 #define XV_ID_MAX 0x7ffffffeL     /* schedule_abs() narrows the id to int: see the job timer_mgr_schedule@ids for ids beyond */
+#endif
 #define GT_ID_OK(i) (xv_gt.id[i] >= 0 && xv_gt.id[i] < xv_gt.next)
-#define GT_EXP_OK(i) (xv_gt.exp[i] == xv_gt.exp[i] /* not NaN */)
+/* an expiry time is the clock value at the time of the call plus a non-negative timeout (timer_mgr_schedule.expires_after_the_timeout) */
+#define XV_EXP_MAX (XV_NOW_MAX + XV_REL_MAX)
+#define GT_EXP_OK(i) (xv_gt.exp[i] >= 0 && xv_gt.exp[i] <= XV_EXP_MAX)
 /* representation invariant on entry + binding of the snapshot constants */
 #define TM_ENTRY(m) (xv_gt.n >= 0 && xv_gt.n <= 3 && TM_LEN(m) == xv_gt.n && TM_LINKS(m) && \
         (xv_gt.n >= 1 ==> (TM_IS_OLD(TM_N1(m), 0) && GT_ID_OK(0) && GT_EXP_OK(0))) && \
@@ -62,7 +69,9 @@
         (m)->next_timer_id == xv_gt.next && xv_gt.next >= 0 && xv_gt.next <= XV_ID_MAX && (const void *)(m) == xv_gt.mgr && \
         (m)->timer_fd == xv_gt.fd && XV_FD_OURS(xv_gt.fd) && (m)->timer_fd_reg_id == xv_gt.reg_id && xv_gt.reg_id >= 0 && \
         XR_IS(xv_gt.reg_id, xv_gt.fd, EPOLLIN) && xv_xr.regs > 0 && (m)->xpoll != NULL)
-#define TM_GHOST_RANGES (XV_FD_GHOST_RANGE && XR_RANGE(2) && TT_RANGE && xv_fk >= 0 && xv_fk < XV_NFD)
+/* (a registered descriptor is an open one: the users of xpoll deregister before they close) */
+#define TM_GHOST_RANGES (XV_FD_GHOST_RANGE && XR_RANGE(2) && TT_RANGE && xv_fk >= 0 && xv_fk < XV_NFD && \
+                         (xv_xr.rf_live ==> XV_FD_OURS(xv_rf)) && (xv_xr.rk_live ==> XV_FD_OURS(xv_xr.rk_fd)))
 /* position (1..3) of the timer with this id in the snapshot, 0: no such timer */
 #define GT_POS(tid) ((xv_gt.n >= 1 && xv_gt.id[0] == (tid)) ? 1 : (xv_gt.n >= 2 && xv_gt.id[1] == (tid)) ? 2 : (xv_gt.n >= 3 && xv_gt.id[2] == (tid)) ? 3 : 0)
 
@@ -97,7 +106,7 @@ struct timer_mgr *timer_mgr_create(struct xpoll *xpoll, void *log_ref)
 __CPROVER_requires(xpoll != NULL && TM_GHOST_RANGES)
 __CPROVER_assigns(xv_errno, XV_FDT_ASSIGNS, xv_xr, xv_tt)
 __CPROVER_ensures(__CPROVER_return_value == NULL || __CPROVER_is_fresh(__CPROVER_return_value, sizeof(struct timer_mgr)))
-__CPROVER_ensures(xv_tt.creates == __CPROVER_old(xv_tt.creates) + 1 && TT_SET_SAME && XV_SAME(xv_close_calls) && XV_SAME(xv_socket_calls))
+__CPROVER_ensures(xv_tt.creates == __CPROVER_old(xv_tt.creates) + 1 && XV_SAME(xv_tt.set_n) && XV_SAME(xv_tt.f2ts_n) && XV_SAME(xv_tt.now_n) && XV_SAME(xv_close_calls) && XV_SAME(xv_socket_calls))
 /* PO[C08] timer_mgr_create.failure_leaves_nothing_behind: timerfd_create fails (EMFILE, ENFILE, ENOMEM ...): NULL, its errno, no descriptor, no registration */
 __CPROVER_ensures(__CPROVER_return_value == NULL ==> (XV_ERRNO_OK(xv_errno) && XV_SAME(xv_open_cnt) && XV_FK_SAME_TM && XR_UNTOUCHED))
 /* PO[C08,C05] timer_mgr_create.owns_one_nonblocking_monotonic_timerfd */
@@ -119,6 +128,8 @@ void timer_mgr_destroy(struct timer_mgr *timer, bool owner)
 __CPROVER_requires(timer == NULL || TM_ENTRY(timer))
 __CPROVER_requires(TM_GHOST_RANGES)
 __CPROVER_assigns(xv_errno, XV_CLOSE_ASSIGNS, xv_xr)
+__CPROVER_assigns(timer != NULL: TM_H(timer); (timer != NULL && TM_HAS1(timer)): __CPROVER_object_whole(TM_N1(timer)); \
+                  (timer != NULL && TM_HAS2(timer)): __CPROVER_object_whole(TM_N2(timer)); (timer != NULL && TM_HAS3(timer)): __CPROVER_object_whole(TM_N3(timer)))
 __CPROVER_frees(timer; (timer != NULL && TM_HAS1(timer)): TM_N1(timer); (timer != NULL && TM_HAS2(timer)): TM_N2(timer); (timer != NULL && TM_HAS3(timer)): TM_N3(timer))
 /* PO[C08] timer_mgr_destroy.closes_its_timerfd_once: that descriptor and no other; errno survives */
 __CPROVER_ensures(timer != NULL ==> (!xv_fdt.e[xv_gt.fd].open && xv_close_calls == __CPROVER_old(xv_close_calls) + 1 && xv_close_fd == xv_gt.fd && \
@@ -137,9 +148,6 @@ __CPROVER_ensures(timer == NULL ==> (TM_FDT_SAME && XV_SAME(xv_errno)))
 ;
 
 /* ---- timer_mgr_schedule ---------------------------------------------------------------------------------------------- */
-#ifndef XV_REL_MAX
-#define XV_REL_MAX 1e15      /* relative timeouts explored by the main job (seconds); job timer_mgr_schedule@huge lifts the bound */
-#endif
 #define TMS_REL(r) ((r) < 0 ? 0 : (r))
 int64_t timer_mgr_schedule(struct timer_mgr *timer, double relative_mtimer)
 __CPROVER_requires(timer != NULL && TM_ENTRY(timer))
@@ -230,6 +238,341 @@ __CPROVER_ensures(XV_SAME(xv_errno))
 ;
 
 #endif /* XV_TD_TM */
+
+/* ==================================================================================================================== */
+#ifdef XV_TD_DNS
+/* ==================================================================================================================== */
+/* ---- timer_mgr.c as its users see it (ASSUMED here; the concrete contracts of part TM are what is ENFORCED: xv_timers there is
+ * TM_LEN(mgr), "timer xv_tk is live" is "an element of the list has id xv_tk").  A timer id >= 0 held by the caller names a LIVE
+ * timer (typestate kept by XQ_TIMERS_OK below) -- timer_mgr_has_expired dereferences the timer. */
+#define TMG_TK_SAME (!xv_tmg.tk_live == !__CPROVER_old(xv_tmg.tk_live) && XV_SAME(xv_tmg.tk_timeout))
+#define TMG_ID_LIVE(id) ((id) >= 0 && xv_timers > 0 && ((id) == xv_tk ==> xv_tmg.tk_live))
+struct timer_mgr *timer_mgr_create(struct xpoll *xpoll, void *log_ref)
+__CPROVER_requires(xpoll != NULL && XV_TD_CNT_OK(xv_tmgrs) && XR_RANGE(1) && XV_TD_UCNT_OK(xv_tmg.creates))
+__CPROVER_assigns(xv_errno, xv_tmg.tmgrs, xv_tmg.timers, xv_tmg.tk_live, xv_tmg.creates, xv_tmg.mgr_fd, xv_tmg.mgr_reg_id, xv_tmg.last_id, xv_xr)
+__CPROVER_ensures(__CPROVER_return_value == NULL || __CPROVER_is_fresh(__CPROVER_return_value, 1))
+__CPROVER_ensures(xv_tmg.creates == __CPROVER_old(xv_tmg.creates) + 1)
+__CPROVER_ensures(__CPROVER_return_value == NULL ==> (XV_ERRNO_OK(xv_errno) && XV_SAME(xv_tmgrs) && XV_SAME(xv_timers) && !xv_tmg.tk_live == !__CPROVER_old(xv_tmg.tk_live) && \
+                  XV_SAME(xv_tmg.mgr_fd) && XV_SAME(xv_tmg.mgr_reg_id) && XR_UNTOUCHED))
+__CPROVER_ensures(__CPROVER_return_value != NULL ==> (XV_SAME(xv_errno) && xv_tmgrs == __CPROVER_old(xv_tmgrs) + 1 && xv_timers == 0 && !xv_tmg.tk_live && xv_tmg.last_id == -1 && \
+                  XR_ADDED(xv_tmg.mgr_reg_id, xv_tmg.mgr_fd, EPOLLIN)))
+;
+/* errno preserved; owner == false: the xpoll instance is not touched; every timer the manager still has dies with it */
+void timer_mgr_destroy(struct timer_mgr *mgr, bool owner)
+__CPROVER_requires(mgr == NULL || (xv_tmgrs > 0 && XV_TD_UCNT_OK(xv_tmg.destroys) && (!owner || (xv_xr.regs > 0 && XV_TD_UCNT_OK(xv_xr.dels) && (xv_tmg.mgr_reg_id == xv_rk ==> xv_xr.rk_live)))))
+__CPROVER_assigns(xv_tmg.tmgrs, xv_tmg.timers, xv_tmg.tk_live, xv_tmg.destroys, xv_tmg.destroy_owner, xv_xr)
+__CPROVER_ensures(mgr == NULL ==> (XV_SAME(xv_tmgrs) && XV_SAME(xv_timers) && !xv_tmg.tk_live == !__CPROVER_old(xv_tmg.tk_live) && XV_SAME(xv_tmg.destroys) && XR_UNTOUCHED))
+__CPROVER_ensures(mgr != NULL ==> (xv_tmgrs == __CPROVER_old(xv_tmgrs) - 1 && xv_timers == 0 && !xv_tmg.tk_live && xv_tmg.destroys == __CPROVER_old(xv_tmg.destroys) + 1 && \
+                  !xv_tmg.destroy_owner == !owner))
+__CPROVER_ensures((mgr != NULL && owner) ==> XR_DELETED(xv_tmg.mgr_reg_id))
+__CPROVER_ensures((mgr != NULL && !owner) ==> XR_UNTOUCHED)
+;
+#define TMG_SCHED_ASSIGNS xv_tmg.timers, xv_tmg.tk_live, xv_tmg.tk_timeout, xv_tmg.scheds, xv_tmg.sched_id, xv_tmg.sched_timeout, xv_tmg.sched_mgr, xv_tmg.last_id
+#define TMG_LAST_OK (xv_tmg.last_id >= -1 && xv_tmg.last_id < (1L << 62))
+int64_t timer_mgr_schedule(struct timer_mgr *mgr, double relative_timeout)
+__CPROVER_requires(mgr != NULL && XV_TD_CNT_OK(xv_timers) && XV_TD_UCNT_OK(xv_tmg.scheds) && TMG_LAST_OK)
+__CPROVER_assigns(TMG_SCHED_ASSIGNS)
+/* (ids are handed out in sequence: part TM, timer_mgr_schedule.fresh_id) */
+__CPROVER_ensures(TMC_SCHEDULED(__CPROVER_return_value, xv_timers, __CPROVER_old(xv_timers)) && __CPROVER_return_value == __CPROVER_old(xv_tmg.last_id) + 1 && xv_tmg.last_id == __CPROVER_return_value)
+__CPROVER_ensures(xv_tmg.sched_id == __CPROVER_return_value && xv_tmg.sched_timeout == relative_timeout && xv_tmg.sched_mgr == (const void *)mgr && \
+                  xv_tmg.scheds == __CPROVER_old(xv_tmg.scheds) + 1)
+/* a fresh id: it names no timer that is pending */
+__CPROVER_ensures(__CPROVER_return_value == xv_tk ? (!__CPROVER_old(xv_tmg.tk_live) && xv_tmg.tk_live && xv_tmg.tk_timeout == relative_timeout) : TMG_TK_SAME)
+;
+void timer_mgr_cancel(struct timer_mgr *mgr, int64_t *timer_id)
+__CPROVER_requires(mgr != NULL && __CPROVER_rw_ok(timer_id, sizeof(*timer_id)) && (*timer_id < 0 || TMG_ID_LIVE(*timer_id)) && XV_TD_UCNT_OK(xv_tmg.cancels))
+__CPROVER_assigns(*timer_id, xv_tmg.timers, xv_tmg.tk_live, xv_tmg.cancels)
+__CPROVER_ensures(TMC_CANCELLED(timer_id, __CPROVER_old(*timer_id) >= 0, xv_timers, __CPROVER_old(xv_timers)) && xv_tmg.cancels == __CPROVER_old(xv_tmg.cancels) + 1)
+__CPROVER_ensures((__CPROVER_old(*timer_id) >= 0 && __CPROVER_old(*timer_id) == xv_tk) ? !xv_tmg.tk_live : !xv_tmg.tk_live == !__CPROVER_old(xv_tmg.tk_live))
+;
+/* cancel (if the id is valid) + schedule: ids are never reused */
+void timer_mgr_reschedule(struct timer_mgr *mgr, double relative_timeout, int64_t *timer_id)
+__CPROVER_requires(mgr != NULL && __CPROVER_rw_ok(timer_id, sizeof(*timer_id)) && (*timer_id < 0 || TMG_ID_LIVE(*timer_id)) && XV_TD_CNT_OK(xv_timers) && \
+                   XV_TD_UCNT_OK(xv_tmg.scheds) && XV_TD_UCNT_OK(xv_tmg.cancels) && TMG_LAST_OK)
+__CPROVER_assigns(*timer_id, TMG_SCHED_ASSIGNS, xv_tmg.cancels)
+__CPROVER_ensures(*timer_id >= 0 && *timer_id == __CPROVER_old(xv_tmg.last_id) + 1 && xv_tmg.last_id == *timer_id && xv_timers == __CPROVER_old(xv_timers) + 1 - (__CPROVER_old(*timer_id) >= 0 ? 1 : 0))
+__CPROVER_ensures(xv_tmg.sched_id == *timer_id && xv_tmg.sched_timeout == relative_timeout && xv_tmg.sched_mgr == (const void *)mgr && \
+                  xv_tmg.scheds == __CPROVER_old(xv_tmg.scheds) + 1 && xv_tmg.cancels == __CPROVER_old(xv_tmg.cancels) + (__CPROVER_old(*timer_id) >= 0 ? 1 : 0))
+__CPROVER_ensures(*timer_id == xv_tk ? (xv_tmg.tk_live && xv_tmg.tk_timeout == relative_timeout && !__CPROVER_old(xv_tmg.tk_live)) : \
+                  ((__CPROVER_old(*timer_id) >= 0 && __CPROVER_old(*timer_id) == xv_tk) ? !xv_tmg.tk_live : TMG_TK_SAME))
+;
+bool timer_mgr_has_expired(struct timer_mgr *mgr, int64_t timer_id)
+__CPROVER_requires(mgr != NULL && TMG_ID_LIVE(timer_id) && XV_TD_UCNT_OK(xv_tmg.expireds))
+__CPROVER_assigns(xv_tmg.expired_ret, xv_tmg.expired_id, xv_tmg.expireds)
+__CPROVER_ensures(!__CPROVER_return_value == !xv_tmg.expired_ret && xv_tmg.expired_id == timer_id && xv_tmg.expireds == __CPROVER_old(xv_tmg.expireds) + 1)
+;
+
+/* ---- struct xcm_dns_query: representation ------------------------------------------------------------------------------------ */
+#define Q_STATE_OK(q) ((q)->state == query_state_in_progress || (q)->state == query_state_failed || (q)->state == query_state_successful)
+#define Q_TERMINAL(st) ((st) == query_state_failed || (st) == query_state_successful)
+/* (same text as harness/dnstc/_ghost.h) */
+#define Q_OK(q) (Q_STATE_OK(q) && ((q)->state == query_state_successful ==> ((q)->ips_len >= 1 && (q)->ips_len <= XCM_DNS_MAX_RESULT_SIZE)))
+#define XQ_SUM(q, F) (F(q, 0) + F(q, 1) + F(q, 2) + F(q, 3) + F(q, 4) + F(q, 5) + F(q, 6) + F(q, 7) + F(q, 8) + F(q, 9) + F(q, 10) + F(q, 11) + F(q, 12) + F(q, 13) + F(q, 14) + F(q, 15))
+#define XQ_ALL(q, F) (F(q, 0) && F(q, 1) && F(q, 2) && F(q, 3) && F(q, 4) && F(q, 5) && F(q, 6) && F(q, 7) && F(q, 8) && F(q, 9) && F(q, 10) && F(q, 11) && F(q, 12) && F(q, 13) && F(q, 14) && F(q, 15))
+#define XQ_ID(q, i) ((q)->channel_fd_reg_ids[i])
+#define XQF_HELD(q, i) (XQ_ID(q, i) >= 0 ? 1 : 0)
+#define XQF_IS_RK(q, i) ((XQ_ID(q, i) >= 0 && XQ_ID(q, i) == xv_rk) ? 1 : 0)
+#define XQF_IS_RF(q, i) ((XQ_ID(q, i) >= 0 && XQ_ID(q, i) == xv_xr.rf_id) ? 1 : 0)
+#define XQF_ID_RANGE(q, i) (XQ_ID(q, i) >= -1)
+#define XQF_NONE(q, i) (XQ_ID(q, i) == -1)
+/* registrations the query holds for c-ares descriptors */
+#define XQ_NREGS(q) XQ_SUM(q, XQF_HELD)
+/* every slot holds -1 or a LIVE registration id, no id twice (stated for the arbitrary id xv_rk) */
+#define XQ_REGS_OK(q) (XQ_ALL(q, XQF_ID_RANGE) && XQ_SUM(q, XQF_IS_RK) <= 1 && (XQ_SUM(q, XQF_IS_RK) == 1 ==> xv_xr.rk_live) && \
+                       xv_xr.regs >= XQ_NREGS(q) + 1 && \
+                       xv_tmg.mgr_reg_id >= 0 && XQ_ALL(q, XQF_NOT_MGR) && (xv_tmg.mgr_reg_id == xv_rk ==> xv_xr.rk_live))
+#define XQF_NOT_MGR(q, i) (XQ_ID(q, i) != xv_tmg.mgr_reg_id)
+#define XQ_HELD_T(id) ((id) >= 0 ? 1 : 0)
+#define XQ_TIMERS_OK(q) ((q)->ares_timer_id >= -1 && (q)->overall_timer_id >= -1 && ((q)->ares_timer_id < 0 || (q)->ares_timer_id != (q)->overall_timer_id) && \
+        TMG_LAST_OK && (q)->ares_timer_id <= xv_tmg.last_id && (q)->overall_timer_id <= xv_tmg.last_id && \
+        (((q)->ares_timer_id >= 0 && (q)->ares_timer_id == xv_tk) ==> xv_tmg.tk_live) && (((q)->overall_timer_id >= 0 && (q)->overall_timer_id == xv_tk) ==> xv_tmg.tk_live) && \
+        (xv_tmg.tk_live ==> (xv_tk >= 0 && (xv_tk == (q)->ares_timer_id || xv_tk == (q)->overall_timer_id))) && \
+        xv_timers == XQ_HELD_T((q)->ares_timer_id) + XQ_HELD_T((q)->overall_timer_id))
+#define XQ_GHOST_RANGES (XR_RANGE(40) && XV_TD_UCNT_OK(xv_tmg.scheds) && XV_TD_UCNT_OK(xv_tmg.cancels) && XV_TD_UCNT_OK(xv_tmg.expireds) && XV_TD_UCNT_OK(xv_tmg.destroys) && \
+        XV_TD_UCNT_OK(xv_tmg.creates) && XV_TD_CNT_OK(xv_timers) && XV_TD_CNT_OK(xv_tmgrs) && xv_tmgrs > 0 && \
+        XV_TD_UCNT_OK(xv_ar.process_fd_n) && XV_TD_UCNT_OK(xv_ar.process_n) && XV_TD_UCNT_OK(xv_ar.getsock_n) && XV_TD_UCNT_OK(xv_ar.timeout_n) && XV_TD_UCNT_OK(xv_ar.destroys) && \
+        XV_TD_UCNT_OK(xv_ar.inits) && XV_TD_UCNT_OK(xv_ar.gai_n) && XV_TD_UCNT_OK(xv_ar.free_n) && XV_TD_UCNT_OK(xv_ar.cb_n) && XV_TD_UCNT_OK(xv_ar.tv2f_n) && XV_TD_UCNT_OK(xv_ar.pfd_j) && \
+        XV_TD_CNT_OK(xv_ar.channels) && xv_ar.channels > 0 && XV_TD_CNT_OK(xv_ar.results) && xv_tmg.mgr_fd >= 0)
+#define XQ_FRESH(q) (__CPROVER_is_fresh(q, sizeof(struct xcm_dns_query)))
+#define XQ_CHANNEL_FRESH(q) (__CPROVER_is_fresh((q)->channel, sizeof(struct ares_channeldata)))
+/* the invariant of a query between two calls of the interface */
+#define XQ_OK(q) (Q_OK(q) && (q)->channel->xv_live == 1 && (q)->xpoll != NULL && (q)->timer_mgr != NULL && XQ_REGS_OK(q) && XQ_TIMERS_OK(q) && \
+                  (xv_ar.pending ==> xv_ar.arg == (void *)(q)) && ((q)->state == query_state_in_progress ==> (q)->overall_timer_id >= 0))
+#define XQ_ASSIGNS(q) __CPROVER_object_whole(q), xv_errno, xv_xr, xv_tmg, xv_ar
+
+/* ---- get_ips ---------------------------------------------------------------------------------------------------------------------- */
+#ifndef XV_NODES_MAX
+#define XV_NODES_MAX 34
+#endif
+#ifndef XV_IPS_CAP_MAX
+#define XV_IPS_CAP_MAX XCM_DNS_MAX_RESULT_SIZE
+#endif
+#ifndef XV_IPS_CAP_MIN
+#define XV_IPS_CAP_MIN 0
+#endif
+#define XQ_FAM_OK(f) ((f) == AF_INET || (f) == AF_INET6)
+static int get_ips(const char *domain_name, struct ares_addrinfo *result, struct xcm_addr_ip *ips, int capacity, void *log_ref)
+/* (the node list is built by the harness: xv_ar.cb_nodes nodes, node number xv_j has family xv_ar.node_fam and address byte xv_ar.node_b at offset xv_mc) */
+/* (the buffer is an array of XV_IPS_CAP_MAX entries whatever `capacity` says -- an object of symbolic size costs a factor 10 --;
+ * that nothing beyond `capacity` entries is written is what the assigns clause demands) */
+#ifdef XV_TD_CB_JOB
+/* (job query_cb, where get_ips is REPLACED: the buffer is the array inside the query object) */
+__CPROVER_requires(capacity == XV_IPS_CAP_MAX && __CPROVER_w_ok(ips, sizeof(struct xcm_addr_ip) * XV_IPS_CAP_MAX))
+#else
+__CPROVER_requires(capacity >= XV_IPS_CAP_MIN && capacity <= XV_IPS_CAP_MAX && __CPROVER_is_fresh(ips, sizeof(struct xcm_addr_ip) * XV_IPS_CAP_MAX))
+#endif
+__CPROVER_requires(result != NULL && xv_ar.cb_nodes >= 0 && xv_ar.cb_nodes <= XV_NODES_MAX)
+__CPROVER_assigns(capacity > 0: __CPROVER_object_upto(ips, sizeof(struct xcm_addr_ip) * capacity))
+/* PO[C13] get_ips.at_most_capacity_addresses: min(nodes, capacity) entries, never more than the caller's capacity (0 included: nothing is written -- assigns clause) */
+__CPROVER_ensures(__CPROVER_return_value == (xv_ar.cb_nodes < capacity ? xv_ar.cb_nodes : capacity) && __CPROVER_return_value >= 0 && __CPROVER_return_value <= XCM_DNS_MAX_RESULT_SIZE)
+/* PO[C13] get_ips.copies_in_list_order: entry j is node j of the resolver's list: its family (IPv4/IPv6) and its address bytes */
+__CPROVER_ensures((xv_j >= 0 && xv_j < __CPROVER_return_value) ==> (ips[xv_j].family == xv_ar.node_fam && XQ_FAM_OK(ips[xv_j].family) && \
+                  (xv_mc < (xv_ar.node_fam == AF_INET ? 4u : 16u) ==> ((const uint8_t *)&ips[xv_j].addr)[xv_mc] == xv_ar.node_b)))
+;
+
+/* ---- query_cb ------------------------------------------------------------------------------------------------------------------------ */
+#define XQC(a) ((struct xcm_dns_query *)(a))
+#define XQ_CB_IGNORED(st) ((st) == ARES_ECANCELLED || (st) == ARES_EDESTRUCTION)
+static void query_cb(void *arg, int status, int timeouts, struct ares_addrinfo *result)
+#ifdef XV_TD_CB_JOB
+__CPROVER_requires(__CPROVER_is_fresh(arg, sizeof(struct xcm_dns_query)))
+#else
+__CPROVER_requires(__CPROVER_rw_ok(XQC(arg), sizeof(struct xcm_dns_query)))
+#endif
+/* TRUSTED(c-ares) A1: no ARES_ENOMEM; A2: exactly one callback, so a status other than "cancelled/destroyed" finds the query in progress */
+__CPROVER_requires(status != ARES_ENOMEM && Q_STATE_OK(XQC(arg)) && (!XQ_CB_IGNORED(status) ==> XQC(arg)->state == query_state_in_progress))
+__CPROVER_requires(status == ARES_SUCCESS ==> (result != NULL && xv_ar.cb_nodes >= 0 && xv_ar.cb_nodes <= XV_NODES_MAX && XV_TD_CNT_OK(xv_ar.results) && xv_ar.results > 0 && XV_TD_UCNT_OK(xv_ar.free_n)))
+__CPROVER_assigns(XQC(arg)->state, XQC(arg)->ips_len, __CPROVER_object_upto(XQC(arg)->ips, sizeof(XQC(arg)->ips)), xv_ar.free_n, xv_ar.results)
+__CPROVER_frees(status == ARES_SUCCESS: result)
+/* PO[C13] query_cb.success_with_an_address_is_successful: the first min(nodes, 32) addresses are stored */
+__CPROVER_ensures((status == ARES_SUCCESS && xv_ar.cb_nodes >= 1) ==> (XQC(arg)->state == query_state_successful && \
+                  XQC(arg)->ips_len == (xv_ar.cb_nodes < XCM_DNS_MAX_RESULT_SIZE ? xv_ar.cb_nodes : XCM_DNS_MAX_RESULT_SIZE)))
+/* PO[C13] query_cb.no_address_is_a_failure: any error status -- and a "successful" answer without a single address -- fails the query (ENOENT later) */
+__CPROVER_ensures(((status != ARES_SUCCESS && !XQ_CB_IGNORED(status)) || (status == ARES_SUCCESS && xv_ar.cb_nodes == 0)) ==> XQC(arg)->state == query_state_failed)
+/* a lookup cancelled or destroyed by the library itself changes nothing */
+__CPROVER_ensures(XQ_CB_IGNORED(status) ==> (XV_SAME(XQC(arg)->state) && XV_SAME(XQC(arg)->ips_len) && XV_SAME(xv_ar.free_n) && XV_SAME(xv_ar.results)))
+/* PO[C08] query_cb.result_list_given_back_once */
+__CPROVER_ensures(status == ARES_SUCCESS ? (xv_ar.free_n == __CPROVER_old(xv_ar.free_n) + 1 && xv_ar.results == __CPROVER_old(xv_ar.results) - 1) \
+                                         : (XV_SAME(xv_ar.free_n) && XV_SAME(xv_ar.results)))
+/* PO[C13] query_cb.successful_means_1_to_32_addresses: the representation invariant xcm_dns_query_result (and contracts/dnstc.h: Q_OK) relies on */
+__CPROVER_ensures(Q_OK(XQC(arg)))
+;
+
+/* ---- update_xpoll (C04) ----------------------------------------------------------------------------------------------------------------- */
+/* the events c-ares asked for on slot i of its last ares_getsock() answer */
+#define XQ_WANT(mask, i) ((XV_GS_R(mask, i) ? EPOLLIN : 0) | (XV_GS_W(mask, i) ? EPOLLOUT : 0))
+#define XQ_J_IN (xv_j >= 0 && xv_j < ARES_GETSOCK_MAXNUM)
+/* in progress: slot xv_j (any slot): c-ares wants events on its descriptor => that descriptor is registered, for exactly those events, under the id the slot holds; otherwise the slot is empty */
+#define XQ_CARES_FDS_REGISTERED(q) (XQ_J_IN ==> (XQ_WANT(xv_ar.gs_mask, xv_j) != 0 \
+        ? ((q)->channel_fds[xv_j] == xv_ar.gs_fd && XQ_ID(q, xv_j) >= 0 && (q)->channel_fd_mask == xv_ar.gs_mask && \
+           (XQ_ID(q, xv_j) == xv_rk ==> (xv_xr.rk_live && xv_xr.rk_fd == xv_ar.gs_fd && xv_xr.rk_event == XQ_WANT(xv_ar.gs_mask, xv_j))) && \
+           (xv_ar.gs_fd == xv_rf ==> (xv_xr.rf_live && xv_xr.rf_id == XQ_ID(q, xv_j) && xv_xr.rf_event == XQ_WANT(xv_ar.gs_mask, xv_j)))) \
+        : XQ_ID(q, xv_j) == -1))
+/* in progress: the timeout c-ares asked for (ares_timeout) is what the ares timer is (re)armed with; no timeout asked for: the timer is left alone */
+/* (s: schedules made by the function before it updates the wake-ups; a0: the ares timer id it had then) */
+#define XQ_CARES_TIMER_ARMED(q, s, a0) (xv_ar.timeout_n == __CPROVER_old(xv_ar.timeout_n) + 1 && (xv_ar.to_null \
+        ? ((q)->ares_timer_id == (a0) && xv_tmg.scheds == __CPROVER_old(xv_tmg.scheds) + (s)) \
+        : ((q)->ares_timer_id >= 0 && (q)->ares_timer_id == xv_tmg.sched_id && xv_tmg.sched_mgr == (const void *)(q)->timer_mgr && xv_tmg.scheds == __CPROVER_old(xv_tmg.scheds) + (s) + 1 && \
+           xv_ar.tv2f_n == __CPROVER_old(xv_ar.tv2f_n) + 1 && xv_ar.tv2f_sec == xv_ar.to_sec && xv_ar.tv2f_usec == xv_ar.to_usec && xv_tmg.sched_timeout == xv_ar.tv2f_ret)))
+/* finished: no c-ares descriptor stays registered and a timer with timeout 0 is armed: the timerfd becomes readable at once, so the
+ * socket's descriptor is readable and the application calls xcm_finish ("resolution finished without a descriptor event") */
+#define XQ_FINISHED_WAKES(q, s) (XQ_ALL(q, XQF_NONE) && (q)->ares_timer_id >= 0 && (q)->ares_timer_id == xv_tmg.sched_id && xv_tmg.sched_timeout == 0 && \
+        xv_tmg.sched_mgr == (const void *)(q)->timer_mgr && xv_tmg.scheds == __CPROVER_old(xv_tmg.scheds) + (s) + 1 && XV_SAME(xv_ar.getsock_n) && XV_SAME(xv_ar.timeout_n))
+#define XQ_WAKEUP(q, s, a0) ((q)->state == query_state_in_progress ? (XQ_CARES_FDS_REGISTERED(q) && XQ_CARES_TIMER_ARMED(q, s, a0) && xv_ar.getsock_n == __CPROVER_old(xv_ar.getsock_n) + 1) : XQ_FINISHED_WAKES(q, s))
+/* C08: what is registered / scheduled and not named by the query object does not change (r0/t0: registrations/timers the query held before) */
+#define XQ_CONSERVED(q, r0, t0) (xv_xr.regs - XQ_NREGS(q) == __CPROVER_old(xv_xr.regs) - (r0) && xv_timers == XQ_HELD_T((q)->ares_timer_id) + XQ_HELD_T((q)->overall_timer_id))
+static void update_xpoll(struct xcm_dns_query *query)
+__CPROVER_requires(XQ_FRESH(query))
+__CPROVER_requires(XQ_CHANNEL_FRESH(query))
+__CPROVER_requires(XQ_OK(query) && XQ_GHOST_RANGES && XQ_NREGS(query) == xv_g_nregs)
+__CPROVER_assigns(XQ_ASSIGNS(query))
+/* PO[C04] update_xpoll.in_progress_registers_every_cares_descriptor_and_arms_the_cares_timer */
+__CPROVER_ensures(query->state == query_state_in_progress ==> (XQ_CARES_FDS_REGISTERED(query) && XQ_CARES_TIMER_ARMED(query, 0, __CPROVER_old(query->ares_timer_id)) && xv_ar.getsock_n == __CPROVER_old(xv_ar.getsock_n) + 1))
+/* PO[C04] update_xpoll.finished_query_wakes_the_socket */
+__CPROVER_ensures(query->state != query_state_in_progress ==> XQ_FINISHED_WAKES(query, 0))
+/* PO[C08] update_xpoll.registrations_and_timers_accounted: every old registration released exactly once (obligations of xpoll_fd_reg_del), the new ones are all named by the query */
+__CPROVER_ensures(XQ_CONSERVED(query, xv_g_nregs, 0))
+__CPROVER_ensures(Q_OK(query) && query->channel->xv_live == 1 && query->xpoll != NULL && query->timer_mgr != NULL)
+__CPROVER_ensures(XQ_REGS_OK(query))
+__CPROVER_ensures(XQ_TIMERS_OK(query))
+__CPROVER_ensures((xv_ar.pending ==> xv_ar.arg == (void *)query) && (query->state == query_state_in_progress ==> query->overall_timer_id >= 0))
+__CPROVER_ensures(XV_SAME(query->state) && XV_SAME(query->overall_timer_id) && XV_SAME(query->ips_len) && XV_SAME(xv_errno) && XV_SAME(xv_ar.cb_n) && !xv_ar.pending == !__CPROVER_old(xv_ar.pending))
+;
+
+/* ---- process_in_progress / xcm_dns_query_process -------------------------------------------------------------------------------------------- */
+/* what the call did to the query, told from the ghost records: c-ares made its callback (cb_n moved) with status cb_status */
+#define XQ_CB_MADE (xv_ar.cb_n != __CPROVER_old(xv_ar.cb_n))
+#define XQ_PIP_ENSURES(q) ( \
+    /* c-ares is driven: every descriptor it had asked events for is handed to ares_process_fd, then ares_process for its timeouts */ \
+    xv_ar.process_n == __CPROVER_old(xv_ar.process_n) + 1 && \
+    /* success wins, also over an expired deadline: the deadline is not even looked at */ \
+    ((q)->state == query_state_successful ==> (XQ_CB_MADE && xv_ar.cb_status == ARES_SUCCESS && XV_SAME(xv_tmg.expireds) && XV_SAME((q)->overall_timer_id))) && \
+    /* otherwise the overall timer is asked */ \
+    ((q)->state != query_state_successful ==> (xv_tmg.expireds == __CPROVER_old(xv_tmg.expireds) + 1 && xv_tmg.expired_id == __CPROVER_old((q)->overall_timer_id))))
+/* C13: the deadline (dns.timeout) has passed and no address has arrived: the query fails (xcm_dns_query_result: ENOENT), the timer is released */
+#define XQ_PIP_TIMEOUT(q) (((q)->state != query_state_successful && xv_tmg.expired_ret) ==> ((q)->state == query_state_failed && (q)->overall_timer_id == -1))
+#define XQ_PIP_NO_TIMEOUT(q) (((q)->state != query_state_successful && !xv_tmg.expired_ret) ==> (XV_SAME((q)->overall_timer_id) && \
+        (q)->state == (XQ_CB_MADE ? query_state_failed : query_state_in_progress)))
+static void process_in_progress(struct xcm_dns_query *query)
+__CPROVER_requires(XQ_FRESH(query))
+__CPROVER_requires(XQ_CHANNEL_FRESH(query))
+__CPROVER_requires(XQ_OK(query) && XQ_GHOST_RANGES && XQ_NREGS(query) == xv_g_nregs && query->state == query_state_in_progress)
+__CPROVER_assigns(XQ_ASSIGNS(query))
+__CPROVER_ensures(XQ_PIP_ENSURES(query))
+/* PO[C13] process_in_progress.overall_timeout_fails_the_query */
+__CPROVER_ensures(XQ_PIP_TIMEOUT(query))
+/* PO[C13] process_in_progress.otherwise_the_resolver_decides: failure callback: failed; success callback: successful; none: still in progress */
+__CPROVER_ensures(XQ_PIP_NO_TIMEOUT(query))
+/* PO[C04] process_in_progress.wakeups_rearmed */
+__CPROVER_ensures(XQ_WAKEUP(query, 0, -1))
+/* PO[C08] process_in_progress.registrations_and_timers_accounted */
+__CPROVER_ensures(XQ_CONSERVED(query, xv_g_nregs, 0) && XQ_OK(query))
+;
+void xcm_dns_query_process(struct xcm_dns_query *query)
+__CPROVER_requires(XQ_FRESH(query))
+__CPROVER_requires(XQ_CHANNEL_FRESH(query))
+__CPROVER_requires(XQ_OK(query) && XQ_GHOST_RANGES && XQ_NREGS(query) == xv_g_nregs)
+__CPROVER_assigns(XQ_ASSIGNS(query))
+/* PO[C13] xcm_dns_query_process.finished_query_stays_finished: nothing at all happens (same text as dnstc.h: Q_PROCESS_ENSURES) */
+__CPROVER_ensures(Q_OK(query) && (Q_TERMINAL(__CPROVER_old(query->state)) ==> (query->state == __CPROVER_old(query->state) && XV_SAME(query->ips_len) && XV_SAME(query->ares_timer_id) && \
+                  XV_SAME(query->overall_timer_id) && XR_UNTOUCHED && XV_SAME(xv_timers) && XV_SAME(xv_tmg.scheds) && XV_SAME(xv_tmg.cancels) && XV_SAME(xv_ar.process_n) && XV_SAME(xv_ar.process_fd_n) && XV_SAME(xv_errno))))
+/* PO[C13] xcm_dns_query_process.in_progress_is_driven: ... the contract of process_in_progress */
+__CPROVER_ensures(__CPROVER_old(query->state) == query_state_in_progress ==> (XQ_PIP_ENSURES(query) && XQ_PIP_TIMEOUT(query) && XQ_PIP_NO_TIMEOUT(query)))
+/* PO[C04] xcm_dns_query_process.wakeups_rearmed */
+__CPROVER_ensures(__CPROVER_old(query->state) == query_state_in_progress ==> XQ_WAKEUP(query, 0, -1))
+/* PO[C08] xcm_dns_query_process.registrations_and_timers_accounted */
+__CPROVER_ensures(XQ_CONSERVED(query, xv_g_nregs, 0) && XQ_OK(query))
+;
+
+/* ---- xcm_dns_query_completed / xcm_dns_query_result -------------------------------------------------------------------------------------------- */
+bool xcm_dns_query_completed(struct xcm_dns_query *query)
+__CPROVER_requires(XQ_FRESH(query) && Q_STATE_OK(query))
+__CPROVER_assigns()
+/* PO[C13,C04] xcm_dns_query_completed.iff_not_in_progress */
+__CPROVER_ensures(!__CPROVER_return_value == !(query->state != query_state_in_progress))
+;
+#define XV_QR_CAP_MAX 40       /* capacities explored (is_fresh needs a bound): beyond XCM_DNS_MAX_RESULT_SIZE, so that capacity > stored addresses is covered */
+int xcm_dns_query_result(struct xcm_dns_query *query, struct xcm_addr_ip *ips, int capacity)
+__CPROVER_requires(XQ_FRESH(query))
+__CPROVER_requires(XQ_CHANNEL_FRESH(query))
+/* caller obligation (asserted by the code): room for at least one address */
+__CPROVER_requires(capacity >= 1 && capacity <= XV_QR_CAP_MAX && __CPROVER_is_fresh(ips, sizeof(struct xcm_addr_ip) * capacity))
+__CPROVER_requires(XQ_OK(query) && XQ_GHOST_RANGES && XQ_NREGS(query) == xv_g_nregs && xv_mc < sizeof(query->ips) && ((const uint8_t *)query->ips)[xv_mc] == xv_g_sb_j)
+__CPROVER_assigns(xv_errno, xv_xr, __CPROVER_object_upto(query->channel_fd_reg_ids, sizeof(query->channel_fd_reg_ids)), __CPROVER_object_upto(ips, sizeof(struct xcm_addr_ip) * capacity))
+/* PO[C13] xcm_dns_query_result.in_progress_is_EAGAIN: and nothing is touched */
+__CPROVER_ensures(query->state == query_state_in_progress ==> (__CPROVER_return_value == -1 && xv_errno == EAGAIN && XR_UNTOUCHED && XQ_NREGS(query) == xv_g_nregs))
+/* PO[C13] xcm_dns_query_result.failed_is_ENOENT: resolver failure and dns.timeout expiry alike */
+__CPROVER_ensures(query->state == query_state_failed ==> (__CPROVER_return_value == -1 && xv_errno == ENOENT && XR_UNTOUCHED && XQ_NREGS(query) == xv_g_nregs))
+/* PO[C13] xcm_dns_query_result.successful_is_the_addresses: min(capacity, stored) of them, at least one, never more than the caller's room, byte for byte (xv_mc: any offset) in resolver order */
+__CPROVER_ensures(query->state == query_state_successful ==> (__CPROVER_return_value == (capacity < query->ips_len ? capacity : query->ips_len) && __CPROVER_return_value >= 1 && \
+                  __CPROVER_return_value <= capacity && __CPROVER_return_value <= XCM_DNS_MAX_RESULT_SIZE && XV_SAME(xv_errno) && \
+                  (xv_mc < sizeof(struct xcm_addr_ip) * (size_t)__CPROVER_return_value ==> ((const uint8_t *)ips)[xv_mc] == xv_g_sb_j)))
+/* PO[C08] xcm_dns_query_result.success_releases_the_cares_registrations: each exactly once (obligations of xpoll_fd_reg_del), none left */
+__CPROVER_ensures(query->state == query_state_successful ==> (XQ_ALL(query, XQF_NONE) && xv_xr.regs == __CPROVER_old(xv_xr.regs) - xv_g_nregs && \
+                  xv_xr.dels == __CPROVER_old(xv_xr.dels) + (unsigned)xv_g_nregs && XV_SAME(xv_xr.adds)))
+;
+
+/* ---- xcm_dns_query_destroy (C08) -------------------------------------------------------------------------------------------------------------- */
+void xcm_dns_query_destroy(struct xcm_dns_query *query, bool owner)
+__CPROVER_requires(query == NULL || XQ_FRESH(query))
+__CPROVER_requires(query == NULL || XQ_CHANNEL_FRESH(query))
+__CPROVER_requires(query == NULL || __CPROVER_is_fresh(query->domain_name, 1))
+__CPROVER_requires(query == NULL || (XQ_OK(query) && XQ_NREGS(query) == xv_g_nregs && xv_g_ptr == (const void *)query->domain_name && xv_g_ptr2 == (const void *)query->channel))
+__CPROVER_requires(XQ_GHOST_RANGES)
+__CPROVER_assigns(xv_errno, xv_xr, xv_tmg, xv_ar)
+__CPROVER_assigns(query != NULL: __CPROVER_object_whole(query); query != NULL: __CPROVER_object_whole(query->channel))
+__CPROVER_frees(query; query != NULL: query->domain_name; query != NULL: query->channel)
+/* PO[C08] xcm_dns_query_destroy.channel_timer_manager_and_memory_released_exactly_once */
+__CPROVER_ensures(query != NULL ==> (xv_ar.destroys == __CPROVER_old(xv_ar.destroys) + 1 && xv_ar.channels == __CPROVER_old(xv_ar.channels) - 1 && __CPROVER_was_freed(xv_g_ptr2) && \
+                  xv_tmg.destroys == __CPROVER_old(xv_tmg.destroys) + 1 && xv_tmgrs == __CPROVER_old(xv_tmgrs) - 1 && xv_timers == 0 && !xv_tmg.destroy_owner == !owner && \
+                  __CPROVER_was_freed(query) && __CPROVER_was_freed(xv_g_ptr) && !xv_ar.pending))
+/* PO[C08] xcm_dns_query_destroy.owner_releases_every_registration_exactly_once: the query's (c-ares descriptors) and the timer manager's */
+__CPROVER_ensures((query != NULL && owner) ==> (xv_xr.regs == __CPROVER_old(xv_xr.regs) - xv_g_nregs - 1 && xv_xr.dels == __CPROVER_old(xv_xr.dels) + (unsigned)xv_g_nregs + 1 && XV_SAME(xv_xr.adds) && \
+                  !xv_xr.rk_live))
+/* PO[C08] xcm_dns_query_destroy.cleanup_is_process_local: owner == false (xcm_cleanup in a forked child): no epoll change */
+__CPROVER_ensures((query == NULL || !owner) ==> XR_UNTOUCHED)
+/* PO[C08] xcm_dns_query_destroy.null_is_noop */
+__CPROVER_ensures(query == NULL ==> (XV_SAME(xv_ar.destroys) && XV_SAME(xv_tmg.destroys) && XV_SAME(xv_tmgrs) && XV_SAME(xv_ar.channels)))
+/* errno survives (contracts/btcp.h relies on it on error paths) -- under TRUSTED assumption A4 of the c-ares model */
+__CPROVER_ensures(XV_SAME(xv_errno))
+;
+
+/* ---- xcm_dns_resolve ------------------------------------------------------------------------------------------------------------------------------ */
+#ifndef XV_DNS_TIMEOUT_MAX
+#define XV_DNS_TIMEOUT_MAX 2147483646.0     /* `opts.tries = timeout / 1 + 1` is an int: see job xcm_dns_resolve@huge for timeouts beyond */
+#endif
+#define XQ_EFF_TIMEOUT(t) ((t) <= 0 ? (double)10 : (t))       /* DEFAULT_OVERALL_TIMEOUT */
+struct xcm_dns_query *xcm_dns_resolve(const char *domain_name, struct xpoll *xpoll, double timeout, void *log_ref)
+__CPROVER_requires(xpoll != NULL && __CPROVER_is_fresh(domain_name, 4))
+/* caller obligation: not NaN (dns_opts_set_timeout rejects it) */
+__CPROVER_requires(timeout == timeout && timeout <= XV_DNS_TIMEOUT_MAX)
+__CPROVER_requires(XR_RANGE(40) && xv_xr.regs >= 0 && !xv_xr.rf_live && XV_TD_UCNT_OK(xv_tmg.scheds) && XV_TD_UCNT_OK(xv_tmg.cancels) && XV_TD_UCNT_OK(xv_tmg.expireds) && XV_TD_UCNT_OK(xv_tmg.destroys) && \
+                   XV_TD_UCNT_OK(xv_tmg.creates) && XV_TD_CNT_OK(xv_tmgrs) && xv_timers == 0 && !xv_tmg.tk_live && \
+                   XV_TD_UCNT_OK(xv_ar.getsock_n) && XV_TD_UCNT_OK(xv_ar.timeout_n) && XV_TD_UCNT_OK(xv_ar.inits) && XV_TD_UCNT_OK(xv_ar.gai_n) && XV_TD_UCNT_OK(xv_ar.free_n) && \
+                   XV_TD_UCNT_OK(xv_ar.cb_n) && XV_TD_UCNT_OK(xv_ar.tv2f_n) && XV_TD_CNT_OK(xv_ar.channels) && XV_TD_CNT_OK(xv_ar.results) && xv_ar.results == 0 && !xv_ar.pending)
+__CPROVER_assigns(xv_errno, xv_xr, xv_tmg, xv_ar)
+__CPROVER_ensures(__CPROVER_return_value == NULL || __CPROVER_is_fresh(__CPROVER_return_value, sizeof(struct xcm_dns_query)))
+/* PO[C08] xcm_dns_resolve.failure_leaves_nothing_behind: no timerfd (EMFILE ...) or no resolver configuration (ENOENT): NULL, errno, no timer manager, no registration, no channel */
+__CPROVER_ensures(__CPROVER_return_value == NULL ==> (XV_ERRNO_OK(xv_errno) && XV_SAME(xv_tmgrs) && XV_SAME(xv_xr.regs) && XV_SAME(xv_ar.channels) && xv_timers == 0 && \
+                  !xv_xr.rk_live == !__CPROVER_old(xv_xr.rk_live) && !xv_xr.rf_live && XV_SAME(xv_ar.gai_n)))
+__CPROVER_ensures((__CPROVER_return_value == NULL && xv_ar.inits != __CPROVER_old(xv_ar.inits)) ==> xv_errno == ENOENT)
+/* PO[C13] xcm_dns_resolve.overall_timer_has_the_configured_timeout: dns.timeout (10 s when not configured) bounds the whole resolution; c-ares is given 1 s per try and timeout + 1 tries */
+__CPROVER_ensures(__CPROVER_return_value != NULL ==> ((__CPROVER_return_value->overall_timer_id == xv_tk ==> (xv_tmg.tk_live && xv_tmg.tk_timeout == XQ_EFF_TIMEOUT(timeout))) && \
+                  __CPROVER_return_value->overall_timer_id >= 0 && \
+                  xv_ar.inits == __CPROVER_old(xv_ar.inits) + 1 && xv_ar.optmask == (ARES_OPT_TIMEOUTMS | ARES_OPT_TRIES) && xv_ar.timeout_ms == 1000 && xv_ar.tries == (int)(XQ_EFF_TIMEOUT(timeout) / 1) + 1))
+/* PO[C13] xcm_dns_resolve.lookup_started_once: one ares_getaddrinfo whose callback argument is the query; the query is in progress, or c-ares has answered at once */
+__CPROVER_ensures(__CPROVER_return_value != NULL ==> (xv_ar.gai_n == __CPROVER_old(xv_ar.gai_n) + 1 && xv_ar.arg == (void *)__CPROVER_return_value && \
+                  (!xv_ar.pending == (xv_ar.cb_n != __CPROVER_old(xv_ar.cb_n))) && (xv_ar.pending ==> __CPROVER_return_value->state == query_state_in_progress) && \
+                  (__CPROVER_return_value->state == query_state_successful ==> (xv_ar.cb_n != __CPROVER_old(xv_ar.cb_n) && xv_ar.cb_status == ARES_SUCCESS))))
+/* PO[C04] xcm_dns_resolve.wakeups_armed */
+__CPROVER_ensures(__CPROVER_return_value != NULL ==> XQ_WAKEUP(__CPROVER_return_value, 1, -1))
+/* PO[C08] xcm_dns_resolve.success_owns_manager_channel_and_named_registrations */
+__CPROVER_ensures(__CPROVER_return_value != NULL ==> (xv_tmgrs == __CPROVER_old(xv_tmgrs) + 1 && xv_ar.channels == __CPROVER_old(xv_ar.channels) + 1 && \
+                  xv_xr.regs == __CPROVER_old(xv_xr.regs) + 1 + XQ_NREGS(__CPROVER_return_value) && XQ_OK(__CPROVER_return_value) && __CPROVER_return_value->xpoll == xpoll && \
+                  __CPROVER_return_value->log_ref == log_ref && xv_ar.results == 0))
+;
+
+#endif /* XV_TD_DNS */
 
 #include "contracts/end.h"
 #endif
